@@ -125,7 +125,7 @@ func init() {
 		c13Worker()
 		os.Exit(0)
 	}
-	hx.Register(&hx.Stream{Name: "c13", Gen: genC13, Run: runC13})
+	hx.Register(&hx.Stream{Name: "c13", Gen: genC13, Run: runC13, Shrink: shrinkC13, Describe: describeC13})
 }
 
 // ------------------------------------------------------------------------------------------------
